@@ -2,3 +2,4 @@ pub mod fsm;
 pub mod layout;
 pub mod model;
 pub mod scratchpad;
+pub mod crash;
